@@ -243,6 +243,11 @@ func (r *Rule) doEvaluate(logger debuglog.Logger, phase types.RulePhase, tx *Tra
 				continue
 			}
 			var values []types.MatchData
+			// v is a copy, but v.Exceptions still shares its backing array with
+			// the rule, which every transaction evaluates concurrently: cap the
+			// slice so that appending always copies instead of writing into
+			// the shared array.
+			v.Exceptions = v.Exceptions[:len(v.Exceptions):len(v.Exceptions)]
 			for _, c := range ecol {
 				if c.Variable == v.Variable {
 					// TODO shall we check the pointer?
